@@ -240,10 +240,19 @@ class Check:
             for p in sorted(glob.glob(os.path.join(COQ, d, "*.v"))):
                 src = open(p).read()
                 src = strip_coq_comments(src)
+                depth = 0
                 for i, line in enumerate(src.splitlines(), 1):
                     m = FORBIDDEN.search(line)
                     if m:
                         bad.append("%s:%d: %s" % (p, i, m.group(0)))
+                    # Variable / Hypothesis / Context outside a Section (or Module) declares an axiom
+                    l = line.strip()
+                    if re.match(r"(Section|Module Type|Module)\s+(Import\s+|Export\s+)?\w+\s*\.", l):
+                        depth += 1
+                    elif re.match(r"End\s+\w+\s*\.", l):
+                        depth = max(0, depth - 1)
+                    elif depth == 0 and re.match(r"(Variable|Variables|Hypothesis|Hypotheses|Context)\b", l):
+                        bad.append("%s:%d: %s outside a section" % (p, i, l.split()[0]))
         return bad
 
     def coq_pins(self, rel, timeout=600):
